@@ -298,3 +298,71 @@ class UuidProxy:
 
     def __getattr__(self, k):
         return getattr(self._real, k)
+
+
+# ------------------------------------------------------------------------------------------------ hashes
+
+
+class HashLog:
+    ENTRIES = []  # (alg_name, digest_size, data, token)
+
+    @classmethod
+    def reset(cls):
+        cls.ENTRIES = []
+
+
+class HashStub:
+    """cryptography.hazmat.primitives.hashes.Hash as a congruent uninterpreted function with an argument log."""
+
+    def __init__(self, algorithm, backend=None):
+        self.alg = algorithm
+        self.parts = []
+
+    def update(self, data):
+        if not isinstance(data, (bytes, bytearray)):
+            raise TypeError("data must be bytes-like")
+        self.parts.append(data)
+
+    def finalize(self):
+        if len(self.parts) == 1:
+            data = self.parts[0]
+        else:
+            data = b""
+            for p in self.parts:
+                data = data + p
+        name, size = self.alg.name, self.alg.digest_size
+        for n, s, prev, tok in HashLog.ENTRIES:
+            if n == name and s == size:
+                if prev is data:
+                    return tok
+                if len(prev) == len(data) and prev == data:
+                    return tok
+        idx = len(HashLog.ENTRIES)
+        tok = (b"\xd1\x9e" + bytes([idx & 0xFF, size & 0xFF]) + name.encode() + b"\x77" * size)[:size]
+        HashLog.ENTRIES.append((name, size, data, tok))
+        return tok
+
+
+class HashesProxy:
+    def __init__(self, real):
+        self._real = real
+        self.Hash = HashStub
+
+    def __getattr__(self, k):
+        return getattr(self._real, k)
+
+
+def stub_hasher(alg_name, data):
+    """The reference side of the congruent hash: same token for the same (algorithm, bytes); registry-sized."""
+    from vlib import registry as R
+
+    class _A:
+        pass
+
+    a = _A()
+    a.name = R.HASHLIB_NAMES[alg_name].replace("_", "").replace("shake128", "shake128")
+    # cryptography names: sha256, sha384, sha512, shake128, shake256
+    a.digest_size = R.HASH_SIZES[alg_name]
+    h = HashStub(a)
+    h.update(data)
+    return h.finalize()
